@@ -3,7 +3,7 @@
 # applies there, else at the commit given by $OLD_BASE (baseline violation keys of that older tree are subtracted).
 p="$1"; i="$2"; ck="$3"
 pre="${WT_PREFIX:-/tmp/wt/}"; tag="${NAME_TAG:-m}"; d=$pre$p/MUTATION
-export SEED_REPO=/tmp/wt/seedrepo
+export SEED_REPO="${SEED_REPO:-/tmp/wt/seedrepo}"
 git -C $SEED_REPO checkout -q -- . ; git -C $SEED_REPO checkout -q --detach main
 if ! git -C $SEED_REPO apply --check $d/patch$i.diff 2>/dev/null; then git -C $SEED_REPO checkout -q --detach "${OLD_BASE}"; fi
 base=$(git -C $SEED_REPO rev-parse --short HEAD)
